@@ -34,6 +34,7 @@ import TableauVerif.Spec.C20Dur
 import TableauVerif.Model.Importer
 import TableauVerif.Model.Incremental
 import TableauVerif.Model.Rfc3339
+import TableauVerif.Spec.C20Emit
 import TableauVerif.Model.CSV
 import TableauVerif.Spec.Grid
 namespace Driver
@@ -364,6 +365,8 @@ def c20 (fn : String) (a : List String) : Option String := do
   | "o.c06.cell", [_name, _zone, _raw, obs] => some (if obs == "all" || obs == "none" then "holds" else "FAILS")
   | "c20.emitts", [_name, zone, t, n] =>
     some (encStr (Rfc3339.format (← decZone? zone) (← decInt? t) (← decNat? n)))
+  | "o.c20.emitts", [_name, zone, t, n, obs] =>
+    some (Spec.C20Emit.holds (← decZone? zone) (← decInt? t) (← decNat? n) (← decStr? obs)).toString
   | "c20.emitz", [_loc, _machine, _eff, zone, raw] =>
     let z ← decZone? zone
     some (match Time.parseTimestamp z (← decStr? raw) with
@@ -391,6 +394,8 @@ def c05 (fn : String) (a : List String) : Option String := do
   match fn, a with
   | "c05.typeinfos", [_, _, _] => some "ok"          -- the model: disciplined threads always finish (C05_deadlock_free)
   | "o.c05.typeinfos", [_, _, _, obs] => some (verdict (obs == "ok"))
+  | "c05.docs", _ => some "returned"
+  | "o.c05.docs", args => some (verdict (args.getLast? == some "returned"))
   | "c05.gen", _ => some "returned"
   | "o.c05.gen", args => some (verdict (args.getLast? == some "returned"))
   | _, _ => none
@@ -483,11 +488,47 @@ def seqOK (start : Nat) : List Nat → Bool
   | [] => true
   | k :: ks => k == start && seqOK (start + 1) ks
 
+/-- a map<uint32, string> field of a PATCH_MERGE document sheet (`Model.Patch.patch` on a one-field message, stated
+directly): every entry the overlay states replaces main's entry of that key — whatever its value — or is added; the
+rest of main's entries stay. Entries `k=v` joined by '.', listed by key. -/
+def ydocMerged (main over : String) : String :=
+  let ents (s : String) : List (String × String) :=
+    if s.isEmpty then [] else (s.splitOn ".").map fun e => match e.splitOn "=" with
+      | k :: rest => (k, "=".intercalate rest)
+      | [] => (e, "")
+  let o := ents over
+  let kept := (ents main).filter fun e => !(o.any (·.1 == e.1))
+  let all := (kept ++ o).toArray.qsort (fun a b => a.1 < b.1)
+  ".".intercalate (all.toList.map fun e => e.1 ++ "=" ++ e.2)
+
+/-- Scatter on document books: one file `<Book>_<Sheet>` per matched book (the primary `Hero` first, key 1), holding that
+book's only entry; listed in byte order of the file names -/
+def docScatterFiles (names : String) : String :=
+  let books := "Hero" :: names.splitOn ","
+  let files := (books.zipIdx.map fun (b, i) => s!"{b}_ItemConf\{{i + 1}}")
+  ";".intercalate (files.toArray.qsort (fun a b => a < b)).toList
+
 def c12seq (fn : String) (a : List String) : Option String := do
   match fn, a with
   | "c12.seq", [_layout, start, keys] =>
     let ks ← (keys.splitOn ".").mapM decNat?
     some (if seqOK (← decNat? start) ks then "ok" else "err 2003")
+  | "c12.redecl", [lo1, hi1, lo2, hi2, v1, v2] =>
+    let a ← decNat? lo1; let b ← decNat? hi1; let c ← decNat? lo2; let d ← decNat? hi2
+    let x ← decNat? v1; let y ← decNat? v2
+    -- differing redeclarations of one type name are refused by protogen; equal ones are one type
+    some (if a != c || b != d then "protoerr" else if a ≤ x && x ≤ b && c ≤ y && y ≤ d then "ok" else "err 2004")
+  | "o.c12.redecl", [lo1, hi1, lo2, hi2, v1, v2, obs] =>
+    let a ← decNat? lo1; let b ← decNat? hi1; let c ← decNat? lo2; let d ← decNat? hi2
+    let x ← decNat? v1; let y ← decNat? v2
+    -- whatever protogen decides about the redeclaration: an accepted schema enforces EACH column's own range
+    some (if obs == "protoerr" then (if a != c || b != d then "holds" else "FAILS")
+          else if a ≤ x && x ≤ b && c ≤ y && y ≤ d then (if obs == "ok" then "holds" else "FAILS")
+          else (if obs == "err 2004" then "holds" else "FAILS"))
+  | "c13.ydoc", [main, over] => let m := ydocMerged main over; some s!"dry={m} load={m}"
+  | "o.c13.ydoc", [main, over, obs] => let m := ydocMerged main over; some (if obs == s!"dry={m} load={m}" then "holds" else "FAILS")
+  | "c11.docscatter", [_kind, names] => some (docScatterFiles names)
+  | "o.c11.docscatter", [_kind, names, obs] => some (if obs == docScatterFiles names then "holds" else "FAILS")
   | "o.c12.seq", [_layout, start, keys, obs] =>
     let ks ← (keys.splitOn ".").mapM decNat?
     some (if seqOK (← decNat? start) ks then (if obs == "ok" then "holds" else "FAILS")
@@ -544,7 +585,7 @@ def dispatch (line : String) : String :=
     let r :=
       if fn.startsWith "imp." || fn.startsWith "o.imp." then imp fn args
       else if fn.startsWith "c18.related" || fn.startsWith "o.c18.related" then c18rel fn args
-      else if fn.startsWith "c12.seq" || fn.startsWith "o.c12.seq" then c12seq fn args
+      else if fn.startsWith "c12.seq" || fn.startsWith "o.c12.seq" || fn.startsWith "c12.redecl" || fn.startsWith "o.c12.redecl" || fn.startsWith "c11.docscatter" || fn.startsWith "o.c11.docscatter" || fn.startsWith "c13.ydoc" || fn.startsWith "o.c13.ydoc" then c12seq fn args
       else if fn.startsWith "c13.tbl" || fn.startsWith "o.c13.tbl" then c13tbl fn args
       else if fn.startsWith "c14." || fn.startsWith "o.c14." then c14 fn args
       else if fn.startsWith "c07.corrupt" || fn.startsWith "o.c07.corrupt" || fn.startsWith "w.c07." || fn.startsWith "c07.skip" || fn.startsWith "o.c07.skip" then tp fn args
